@@ -2427,6 +2427,12 @@ class Interp:
                                                        and not isinstance(m_.value, bool)):
                         return m_
                 raise AbsRaise(f"ValueError: {args[0]!r} is not a valid {f.ci.name}", where)
+            if any(b.split(".")[-1].split("[")[0] == "TypedDict" for c in self.pm.mro(f.ci) for b in c.bases):
+                # typing.TypedDict: calling the class builds a plain dict (no check of keys or value types at run time)
+                try:
+                    return dict(*args, **kwargs)
+                except (TypeError, ValueError) as exc:
+                    raise AbsRaise(f"{type(exc).__name__}: {exc}", where) from exc
             init_f = self.class_lookup(f.ci, "__init__")
             if init_f is not None and init_f[0] == "value":
                 obj = AObj(f.ci.name, _complete=True)
